@@ -4,6 +4,9 @@ CONSTANTS
   ISRs = {{1}, {1, 2}, {1, 2, 3}}
   MinISRs = {1, 2, 3}
   Stores = {"memory", "messagedb"}
+  FwdModes = {"miss", "old", "cur"}
+  PreLeos = {0}
+  PreBars = {0}
   MaxLeo = 1000000
   MaxB = 1000000
   Trims = {0}
@@ -14,6 +17,7 @@ CONSTANTS
   SyncEnds = {0}
   CapZeroUnbounded = FALSE
   LastUncapped = FALSE
+  FwdDropsSyncOnce = FALSE
 CONSTRAINT Track
 INVARIANTS Conform C10_PhysBound
 PROPERTIES C10_ReadWindow C10_Monotone C10_TrimCovered
